@@ -21,7 +21,7 @@ from ..escape import Escape
 from ..cfg import CFG
 from ..report import Check
 from .. import tables
-from ..util import call_name, calls_in, enclosing_trys, handler_names, is_catch_all, reraises, names_in
+from ..util import not_none_fact, call_name, calls_in, enclosing_trys, handler_names, is_catch_all, reraises, names_in
 
 PHASE_ENTRIES = [
     'pydoctor.model.System.process',
@@ -209,19 +209,15 @@ def run(repo: Repo, chk: Check, thorough: bool = False) -> None:
     # processModule: the parse result is truth-tested before processModuleAST, no raise, progress reached
     pm = repo.func('pydoctor.model.System.processModule')
     cfg = CFG(pm)
-    parse_vars: Set[str] = set()
-    for n in pm.walk():
-        if isinstance(n, ast.Assign) and isinstance(n.value, ast.Call) and call_name(n.value) in ('parseFile', 'parseString'):
-            for t in n.targets:
-                if isinstance(t, ast.Name):
-                    parse_vars.add(t.id)
-    if not parse_vars:
-        chk.error('System.processModule: result of parseFile/parseString is not bound to a variable any more')
-    for c in calls_in(pm, lambda c: call_name(c) == 'processModuleAST'):
+    # (the tree handed to the walk is whatever local the call names: where it came from - parseFile / parseString directly or through a helper - does not matter)
+    pcalls = calls_in(pm, lambda c: call_name(c) == 'processModuleAST')
+    if not pcalls:
+        chk.error('System.processModule: the call builder.processModuleAST(<tree>, mod) was not found')
+    for c in pcalls:
+        tree = c.args[0] if c.args else None
         tests = cfg.dominating_tests(cfg.stmt_of(c))
-        ok = any(pol and isinstance(t, ast.Name) and t.id in parse_vars for (t, pol) in tests) or \
-            any(pol and isinstance(t, ast.Compare) and isinstance(t.left, ast.Name) and t.left.id in parse_vars
-                and isinstance(t.ops[0], ast.IsNot) for (t, pol) in tests)
+        ok = isinstance(tree, ast.Name) and (any(pol and isinstance(t, ast.Name) and t.id == tree.id for (t, pol) in tests) or
+                                             any(not_none_fact(t, pol, tree.id) for (t, pol) in tests))
         chk.ob('R01.2', 'System.processModule :: parse result tested before processModuleAST', ok,
                'dominated by a truth test of the parse result' if ok else
                'processModuleAST(ast, ...) is reachable with ast = None (unparsable file would crash the walk)',
@@ -252,6 +248,7 @@ def run(repo: Repo, chk: Check, thorough: bool = False) -> None:
     chk.require('R01.2', 11)
 
     # ---- R01.3 barrier census
+    _REPO[:] = [repo]
     for q, partial in BARRIERS.items():
         f = repo.func(q)
         found = False
@@ -525,11 +522,14 @@ def run(repo: Repo, chk: Check, thorough: bool = False) -> None:
     chk.require('R01.7', 7)
 
 
+_REPO: List[Repo] = []
+
+
 def _role(f: Func, c: ast.Call) -> str:
     """Name of the callee, or '<parser>' for a call of a local variable that holds a docstring parser."""
     if isinstance(c.func, ast.Name):
-        from ..util import values_of
-        if any(isinstance(v, ast.Call) and call_name(v) in ('get_parser_by_name', 'processtypes') for v in values_of(f, c.func.id)):
+        from ..util import parser_valued
+        if parser_valued(_REPO[0], f, c.func.id):
             return '<parser>'
     return call_name(c)
 
